@@ -30,6 +30,9 @@ def plan(tier):
         for ns in (0, 1):
             for m in (USR, FIQ, SVC, MON, HYP) if tier == "quick" else ALLMODES:
                 shards.append(("bank", ci, ns, m, depth, tier))
+    for ci in range(len(CONFIGS)):
+        for m in ALLMODES:
+            shards.append(("bank-instr", ci, m))
     for blk in range(32):
         shards.append(("range-t16", blk))
     for i in range(16):
@@ -53,6 +56,8 @@ def run_shard(arg):
     res = Result()
     if arg[0] == "bank":
         bank(res, *arg[1:])
+    elif arg[0] == "bank-instr":
+        bank_instr(res, arg[1], arg[2])
     elif arg[0] == "range-t16":
         range_t16(res, arg[1])
     else:
@@ -206,6 +211,79 @@ def bank(res, ci, ns, start, depth, tier):
     plan.restore((base, mem))
     dfs(base, (), 0)
     res.sample({"config": name, "ns": ns, "start_mode": machine.MODE_NAMES[start], "modes": [machine.MODE_NAMES[m] for m in modes]})
+
+
+# ------------------------------------------------------------------------------------------------ (a')
+BANK_MENU = [
+    ("MOV r8,#0x11", 0xE3A08011), ("MOV r12,#0x12", 0xE3A0C012), ("MOV sp,#0x20", 0xE3A0D020), ("MOV lr,#0x33", 0xE3A0E033),
+    ("LDMIA r0,{r8-r14}^", 0xE8D07F00), ("STMIA r1,{r8-r14}^", 0xE8C17F00), ("LDMIA r0,{r3,r8,r13}^", 0xE8D02108),
+    ("CPS #fiq", 0xF1020011), ("CPS #irq", 0xF1020012), ("CPS #svc", 0xF1020013), ("CPS #sys", 0xF102001F),
+    ("MSR CPSR_c,r2", 0xE121F002), ("MRS r3,SPSR", 0xE14F3000), ("MSR SPSR_fsxc,r4", 0xE16FF004),
+    ("SRSDB sp!,#abt", 0xF96D0517), ("STMDB sp!,{r8,r12,lr}", 0xE92D5100), ("LDMIA sp!,{r8,r12,lr}", 0xE8BD5100),
+]
+
+
+def bank_instr(res, ci, start):
+    """Banking through instructions: every program of 3 instructions over a menu of bank-sensitive ARM instructions
+    (writes to R8-R14, LDM/STM of the User bank, CPS / MSR mode switches, SPSR access, SRS, PUSH/POP) from every start
+    mode, co-simulated with the reference stepper; the whole snapshot (every bank) is compared after every step."""
+    from ..ref import model
+    from ..ref.state import Unpredictable
+    name, cfg = CONFIGS[ci]
+    env = sweep.Env("mpu-off", cfg)
+    cpu = env.cpu
+    plan = env.plan
+    ix = plan.index
+    names = plan.names
+    full = dict(machine.base_config())
+    full.update(cfg)
+    for ns in ((0, 1) if full.get("have_security_ext") else (0,)):
+        if start not in legal_modes(full, ns) or start == HYP:
+            continue
+        base = list(env.base("svc", "ram")[0])
+        for k, n in enumerate(names):
+            if n.startswith("R.") and n != "R.PC":
+                base[ix[n]] = 0x10100 + 0x40 * (k % 32)          # every physical register a distinct RAM address
+            if n.startswith("spsr_"):
+                base[ix[n]] = 0x10 | (k << 8)
+        base[ix["R.R2usr"]] = 0x000001D1                        # MSR CPSR_c source: FIQ mode
+        base[ix["R.R4usr"]] = 0x600001D2
+        base[ix["cpsr"]] = 0x1C0 | start
+        if full.get("have_security_ext"):
+            base[ix["scr"]] = (base[ix["scr"]] & ~1) | ns
+        base[ix["R.PC"]] = 0x10800
+        pre = tuple(base)
+        mem0 = env.base("svc", "ram")[1]
+        for prog in itertools.product(range(len(BANK_MENU)), repeat=3):
+            plan.restore((pre, mem0))
+            for k, mi in enumerate(prog):
+                machine.put_instr(cpu, 0x10800 + 4 * k, BANK_MENU[mi][1], False, 32)
+            st = St(names, pre, plan.mem(), full)
+            res.cases += 1
+            res.add_state(hash((ci, ns, start, prog)))
+            for k in range(3):
+                if st.pc != 0x10800 + 4 * k:
+                    break
+                try:
+                    label = model.step(st)
+                except Unpredictable:
+                    res.outcome("model-unpredictable-stop")
+                    break
+                out = machine.step(cpu)
+                res.transitions += 1
+                post = plan.regs()
+                d = [("step", "ok", out)] if out[0] != "ok" else st.compare(names, post, plan.mem())
+                if d:
+                    res.fail("banking via instruction %s: %s" % (label.split("->")[0], d[0][0].split("[")[0]),
+                             "config=%s ns=%d start=%s program=%r step %d | model->impl: %s" % (
+                                 name, ns, machine.MODE_NAMES[start], [BANK_MENU[i][0] for i in prog], k, machine.fmt_diff(d)),
+                             {"config": name, "ns": ns, "start": start, "program": [BANK_MENU[i][1] for i in prog]})
+                    break
+                for loc in st.unknown:
+                    st.loc[loc] = post[ix[loc]]
+                st.unknown.clear()
+                res.outcome("instr-step")
+    res.sample({"config": name, "start_mode": machine.MODE_NAMES[start], "menu": [m[0] for m in BANK_MENU]})
 
 
 # ------------------------------------------------------------------------------------------------ (b)
